@@ -753,7 +753,7 @@ def embedded_pdfs(only=None):
             docs[algo + "+filter-named-AESCF|" + pw] = base64.b64encode(zlib.compress(raw.replace(b"/StdCF", b"/AESCF"))).decode()
 
     def read(key):
-        pr = subprocess.run([sys.executable, "-c", _PDF_READER, REPO], input=docs[key], capture_output=True, text=True, timeout=120)
+        pr = subprocess.run([sys.executable, "-c", _PDF_READER, REPO], input=docs[key], capture_output=True, text=True, timeout=900)
         try:
             return json.loads(pr.stdout.strip().splitlines()[-1])
         except Exception:  # noqa
@@ -847,11 +847,19 @@ def patch_probe():
     import json
     import subprocess
     import sys
-    pr = subprocess.run([sys.executable, "-c", _PATCH_PROBE, REPO], capture_output=True, text=True, timeout=120)
+    if "r" in _PROBE_CACHE:                 # one probe per replayer process (the validator asks twice, the sweep once)
+        return _PROBE_CACHE["r"]
+    # (the limit only guards against a hang: on a machine with load average > 100 the probe took more than 120 s, and a
+    #  verdict must not depend on load)
+    pr = subprocess.run([sys.executable, "-c", _PATCH_PROBE, REPO], capture_output=True, text=True, timeout=1500)
     try:
-        return json.loads(pr.stdout.strip().splitlines()[-1])
+        _PROBE_CACHE["r"] = json.loads(pr.stdout.strip().splitlines()[-1])
     except Exception:  # noqa
-        return {"error": (pr.stderr or pr.stdout)[-300:]}
+        _PROBE_CACHE["r"] = {"error": (pr.stderr or pr.stdout)[-300:]}
+    return _PROBE_CACHE["r"]
+
+
+_PROBE_CACHE = {}
 
 
 ASSUMED_IMPORTERS = ["pypdf._crypt_providers", "pypdf._crypt_providers._fallback", "pypdf._encryption"]
